@@ -511,7 +511,7 @@ pub fn run(rep: &Report) {
     );
     rep.assume("calls are serialized by the monitor's mutex: a call counts as 'after close' if it acquires the monitor after close() did");
     let n = match rep.tier {
-        Tier::Quick => 30_000u64,
+        Tier::Quick => 90_000u64,
         Tier::Thorough => 600_000u64,
     };
     let classes: std::sync::Mutex<BTreeMap<String, u64>> = std::sync::Mutex::new(BTreeMap::new());
